@@ -172,6 +172,77 @@ Definition digit_min_code : Z := 48.      (* DigitEncodingFactory("0") *)
 Definition quality_min_code : Z := 33.    (* DigitEncodingFactory("!") *)
 Definition cigar_min_code : Z := 0.       (* DigitEncodingFactory(chr(0)) *)
 
+(* ---------- numeric offset encodings on uint8 data (what the library computes: uint8 arithmetic wraps) ---------- *)
+Definition num_encode_u8 (b min_code : Z) : Z := (num_encode b min_code) mod 256.
+Definition num_decode_u8 (d min_code : Z) : Z := (num_decode d min_code) mod 256.
+(* routes: 0 enc.encode(str) | 1 as_encoded_array(str, enc) | 2 enc.encode(list) | 3 enc.encode(ndarray uint8)
+           4 enc.encode(base-encoded ragged)  — encode rows then decode them back with enc.decode
+           9 enc.decode(int64 ndarray): no wrap *)
+Definition num_rows (route mc : Z) (rows : list (list Z)) : res * list (list Z) * list (list Z) :=
+  if route =? 9 then (Ok [], rows, map (map (fun d => num_decode d mc)) rows)
+  else if is_str_route route && existsb (fun c => 128 <=? c) (concat rows) then (Unicode, [], [])
+  else let codes := map (map (fun b => num_encode_u8 b mc)) rows in
+       (Ok [], codes, map (map (fun d => num_decode_u8 d mc)) codes).
+
+(* ---------- StringEncoding (string_encodings.py + util/ascii_hash.py) ----------
+   A label is looked up by its polynomial hash only: sum_i ((129^i mod M) * s_i mod M) mod M, M = 2^31-1. *)
+Definition big_mod : Z := 2147483647.
+Definition n_letters : Z := 129.
+Fixpoint str_hash_from (p : Z) (s : list Z) : Z :=
+  match s with
+  | [] => 0
+  | c :: r => (p * c) mod big_mod + str_hash_from ((p * n_letters) mod big_mod) r
+  end.
+Definition str_hash (s : list Z) : Z := (str_hash_from 1 s) mod big_mod.
+Fixpoint find_from (i : Z) (h : Z) (hs : list Z) : option Z :=
+  match hs with [] => None | x :: r => if x =? h then Some i else find_from (i + 1) h r end.
+Fixpoint nodupb (l : list Z) : bool :=
+  match l with [] => true | x :: r => negb (existsb (Z.eqb x) r) && nodupb r end.
+Fixpoint all_some {A} (l : list (option A)) : option (list A) :=
+  match l with
+  | [] => Some []
+  | Some x :: r => match all_some r with Some t => Some (x :: t) | None => None end
+  | None :: _ => None
+  end.
+(* verify = false: the code at HEAD (hash match is taken as identity);
+   verify = true : the matched label is compared with the query (notes/C06.fix-3.diff) *)
+Definition str_lookup (verify : bool) (labels : list (list Z)) (q : list Z) : option Z :=
+  match find_from 0 (str_hash q) (map str_hash labels) with
+  | Some i => if verify then (if zlist_eqb (nth (Z.to_nat i) labels []) q then Some i else None) else Some i
+  | None => None
+  end.
+Definition str_encode (verify : bool) (labels queries : list (list Z)) : res :=
+  if negb (nodupb (map str_hash labels)) then Crash        (* assert in AsciiHashTable.from_sequences *)
+  else match all_some (map (str_lookup verify labels) queries) with
+       | Some idx => Ok idx
+       | None => EncErr 0                                   (* EncodingError('String encoding failed') *)
+       end.
+Definition str_decode (labels : list (list Z)) (codes : list Z) : option (list (list Z)) :=
+  all_some (map (fun k => if (0 <=? k) && (k <? len labels) then Some (nth (Z.to_nat k) labels []) else None) codes).
+
+(* ---------- KmerEncoding (kmer_encodings.py): little-endian base-n number of the letter codes ---------- *)
+Fixpoint kmer_hash (n : Z) (codes : list Z) : Z :=
+  match codes with [] => 0 | c :: r => c + n * kmer_hash n r end.
+Fixpoint kmer_digits (n : Z) (k : nat) (h : Z) : list Z :=
+  match k with O => [] | S k' => h mod n :: kmer_digits n k' (h / n) end.
+(* encode one k-mer text: AssertionError unless it has k letters; the alphabet encoding's error otherwise *)
+Definition kmer_encode (L : list Z -> list Z) (A : list Z) (k : Z) (s : list Z) : res :=
+  if negb (len s =? k) then Crash
+  else match encode_flat L A s with
+       | Ok codes => Ok [kmer_hash (len A) codes]
+       | e => e
+       end.
+(* a list of k-mer texts: every row must have k letters; rows are flattened and encoded as one array *)
+Definition kmer_encode_rows (L : list Z -> list Z) (route : Z) (A : list Z) (k : Z) (rows : list (list Z)) : res :=
+  if existsb (fun r => negb (len r =? k)) rows then Crash
+  else if is_str_route route && existsb (fun c => 128 <=? c) (concat rows) then Unicode
+  else match encode_flat L A (concat rows) with
+       | Ok codes => Ok (map (kmer_hash (len A)) (unflatten (lens_of rows) codes))
+       | e => e
+       end.
+Definition kmer_to_string (A : list Z) (k : Z) (h : Z) : option (list Z) :=
+  decode_flat A (kmer_digits (len A) (Z.to_nat k) h).
+
 (* ---------- what the library reports as decoded text for codes in an encoding ---------- *)
 Definition decode_enc (e : enc) (codes : list Z) : option (list Z) :=
   match e with Base => Some codes | Alpha ra => decode_flat (alphabet_of ra) codes end.
@@ -182,6 +253,7 @@ Definition byte_code (L : list Z -> list Z) (A : list Z) (b : Z) : Z :=
 
 (* ====================================================================== which variant is in /repo *)
 Definition cur_lower : list Z -> list Z := lower_fixed.     (* switch to lower_fixed with notes/C06.fix-1.diff *)
+Definition cur_str_verify : bool := false.                   (* switch to true with notes/C06.fix-3.diff *)
 Definition cur_rule : rule := RFixed.                       (* switch to RFixed with notes/C06.fix-2.diff *)
 
 (* the predefined alphabets (constructor strings of alphabet_encoding.py:105-125) *)
